@@ -3,6 +3,7 @@
 package an
 
 import (
+	"os"
 	"fmt"
 	"go/ast"
 	"go/token"
@@ -21,6 +22,7 @@ type World struct {
 	units      map[string]*Unit
 	FieldNames map[*types.Var]string // struct field -> "pkg.Type.Field"
 	consts     map[string]string     // "pkgname.Const" -> exact value
+	obsMemo    map[*types.Func]int   // 1 observer, 2 not
 	Vocab      VocabSnapshot         // local signatures recorded when the rule tables were written (nil: none)
 	Renamed    []string              // renamed locals recognised in this run
 }
@@ -281,6 +283,7 @@ func (u *Unit) edgeFormula(b *flow.Block) *flow.F {
 type footprint struct {
 	vars  map[types.Object]bool
 	paths map[string]bool
+	recvs map[string]map[string]bool // receivers of method calls in the condition -> methods called
 }
 
 // staleBetween: some store on a path from edge block e to site s (not re-entering e) writes a local
@@ -289,13 +292,13 @@ func (u *Unit) staleBetween(e *flow.Block, s *flow.Site) bool {
 	fp, ok := u.fps[e]
 	if !ok {
 		v, p := u.C.Footprint(e.EdgeCond)
-		fp = &footprint{v, p}
+		fp = &footprint{v, p, u.C.MethodReceivers(e.EdgeCond)}
 		if u.fps == nil {
 			u.fps = map[*flow.Block]*footprint{}
 		}
 		u.fps[e] = fp
 	}
-	if len(fp.vars) == 0 && len(fp.paths) == 0 {
+	if len(fp.vars) == 0 && len(fp.paths) == 0 && len(fp.recvs) == 0 {
 		return false
 	}
 	// forward reachability from e (without re-entering e), backward from s.Block (without passing e)
@@ -322,6 +325,40 @@ func (u *Unit) staleBetween(e *flow.Block, s *flow.Site) bool {
 	}
 	g(s.Block)
 	for _, st := range u.Sites {
+		if st.Kind == flow.SCall && len(fp.recvs) > 0 && st.Call != nil && !st.Deferred {
+			// a method call on an object whose observer result the condition tested: it.Valid() tested, then it.Seek()
+			sel, ok := ast.Unparen(st.Call.Fun).(*ast.SelectorExpr)
+			if !ok {
+				continue
+			}
+			if sl := u.Info().Selections[sel]; sl == nil || sl.Kind() != types.MethodVal {
+				continue
+			}
+			ms := fp.recvs[u.C.Term(sel.X)]
+			if ms == nil || ms[sel.Sel.Name] {
+				continue
+			}
+			if f, isF := u.Info().ObjectOf(sel.Sel).(*types.Func); isF && u.W.observer(f, 0) {
+				continue
+			}
+			if st == s {
+				continue
+			}
+			btw := false
+			if st.Block == s.Block {
+				if st.NodeIdx < s.NodeIdx || (st.NodeIdx == s.NodeIdx && st.SameBlockBefore(s)) {
+					btw = fwd[st.Block] || st.Block == e
+				} else if bwd[st.Block] && fwd[st.Block] {
+					btw = true
+				}
+			} else if fwd[st.Block] && bwd[st.Block] {
+				btw = true
+			}
+			if btw {
+				return true
+			}
+			continue
+		}
 		if st.Kind != flow.SStore && st.Kind != flow.SRange {
 			continue
 		}
@@ -395,4 +432,168 @@ func (w *World) UnitNames() []string {
 	}
 	sort.Strings(out)
 	return out
+}
+
+// observerMethod: method names that do not change what other observers of the same object report.
+func observerMethod(name string) bool {
+	switch name {
+	case "Valid", "Key", "RefKey", "Value", "RefValue", "Len", "Error", "Err", "String", "Size", "Cap", "Count", "Cur", "Epoch", "Load",
+		"Infof", "Debugf", "Warningf", "Errorf", "Info", "Debug", "Warning", "Level", "Lock", "Unlock", "RLock", "RUnlock":
+		return true
+	}
+	for _, p := range []string{"Is", "Has", "Get", "get", "is", "has", "Can", "Should", "Need", "Log"} {
+		if strings.HasPrefix(name, p) && len(name) > len(p) {
+			return true
+		}
+	}
+	return false
+}
+
+// observer: calling the method does not change what the object's other methods report. For a method declared in
+// the module this is computed: no store through the receiver or a pointer parameter, no send/close, and only observer
+// callees. For everything else the name decides (observerMethod).
+func (w *World) observer(f *types.Func, depth int) bool {
+	if w.obsMemo == nil {
+		w.obsMemo = map[*types.Func]int{}
+	}
+	if v, ok := w.obsMemo[f]; ok {
+		return v == 1
+	}
+	src := w.P.FuncOf(f)
+	if src == nil || src.Decl.Body == nil {
+		// an interface method or a method outside the module: the name decides
+		return observerMethod(f.Name()) || !mutatorName(f.Name())
+	}
+	if n := f.Name(); strings.Contains(n, "Copy") || strings.Contains(n, "Clone") {
+		// builds a new object: the stores it makes go into what it allocates (not tracked)
+		w.obsMemo[f] = 1
+		return true
+	}
+	if depth > 5 {
+		return false
+	}
+	w.obsMemo[f] = 1 // optimistic for recursion
+	u, err := w.Unit(src.Name)
+	res := err == nil
+	if res {
+		for _, uu := range append([]*Unit{u}, u.Lits()...) {
+			for _, s := range uu.Sites {
+				switch s.Kind {
+				case flow.SSend:
+					res = false
+				case flow.SStore:
+					// a store to anything but a plain local of the function
+					if s.Local == nil {
+						// a field or element of a local *value* (a struct copy, an array) is still local
+						root, _ := uu.C.RootVar(s.LHS)
+						local := false
+						if root != nil {
+							if _, isRole := u.C.RoleOf(root); !isRole && root.Pkg() != nil && root.Parent() != root.Pkg().Scope() {
+								switch root.Type().Underlying().(type) {
+								case *types.Struct, *types.Array, *types.Basic:
+									// the stored-to path must not go through a pointer, map or slice field
+									local = !pathThroughReference(uu, s.LHS)
+								}
+							}
+						}
+						if !local {
+							res = false
+						}
+					} else if _, isRole := u.C.RoleOf(s.Local); isRole {
+						if _, isIdent := ast.Unparen(s.LHS).(*ast.Ident); !isIdent {
+							res = false
+						}
+					}
+				case flow.SCall:
+					if s.Builtin == "close" || s.Builtin == "delete" || s.Builtin == "copy" {
+						res = false
+					}
+					if s.Callee != nil && s.Callee != f {
+						if cs := w.P.FuncOf(s.Callee); cs != nil && cs.Decl.Body != nil {
+							if !w.observer(s.Callee, depth+1) {
+								res = false
+							}
+						} else if s.Callee.Type().(*types.Signature).Recv() != nil && !observerMethod(s.Callee.Name()) && mutatorName(s.Callee.Name()) {
+							res = false
+						}
+					}
+				}
+				if !res {
+					break
+				}
+			}
+		}
+	}
+	if res {
+		w.obsMemo[f] = 1
+	} else {
+		w.obsMemo[f] = 2
+	}
+	if os.Getenv("ZR_DEBUG_OBS") != "" {
+		fmt.Fprintf(os.Stderr, "observer(%s) = %v\n", src.Name, res)
+	}
+	return res
+}
+
+// mutatorName: for methods whose body is not available (interfaces, other modules) a name that says the object changes.
+func mutatorName(name string) bool {
+	if name == "First" || name == "Last" {
+		return true
+	}
+	for _, p := range []string{"Set", "Add", "Del", "Remove", "Put", "Write", "Reset", "Clear", "Close", "Push", "Pop", "Append", "Insert", "Update",
+		"Incr", "Decr", "Store", "Swap", "Seek", "Next", "Prev", "Commit", "Apply", "Save", "Sync", "Truncate", "Compact", "Create",
+		"Restore", "Step", "Send", "Advance", "Propose", "Start", "Stop", "Destroy", "Abort", "Merge", "Flush", "Release", "Rotate", "Cut", "Recv",
+		"Read", "Open", "Init", "Register", "Unregister", "Trigger", "Notify", "Signal", "Broadcast", "Wait", "Done", "Cancel", "Purge", "Evict",
+		"Load", "Unmarshal", "Decode", "Scan", "Fill", "Grow", "Move", "Rename", "Mark", "Unmark", "Enable", "Disable", "Become", "Transfer", "Campaign",
+		"Tick", "Handle", "Process", "Run", "Do", "Exec", "Delete", "Backup", "Checkpoint", "Clean", "Ingest", "Expire", "Persist", "Renew"} {
+		if strings.HasPrefix(name, p) {
+			return true
+		}
+	}
+	lower := strings.ToLower(name[:1]) + name[1:]
+	if lower != name {
+		return false
+	}
+	// unexported: same words in lower case
+	for _, p := range []string{"set", "add", "del", "remove", "put", "write", "reset", "clear", "close", "push", "pop", "append", "insert", "update",
+		"incr", "decr", "store", "swap", "seek", "next", "prev", "commit", "apply", "save", "sync", "truncate", "compact", "create", "restore", "step",
+		"send", "advance", "start", "stop", "destroy", "abort", "merge", "flush", "release", "cut", "read", "open", "init", "load", "delete", "become",
+		"handle", "process", "run", "do", "maybe", "try"} {
+		if strings.HasPrefix(name, p) {
+			return true
+		}
+	}
+	return false
+}
+
+// pathThroughReference: the access path x.a.b[i].c dereferences a pointer or indexes a map/slice on the way (the
+// last step excluded: assigning a whole map/slice-typed field of a local struct only changes the local).
+func pathThroughReference(u *Unit, lhs ast.Expr) bool {
+	e := ast.Unparen(lhs)
+	first := true
+	for {
+		switch x := e.(type) {
+		case *ast.SelectorExpr:
+			if t := u.Info().TypeOf(x.X); t != nil {
+				if _, isPtr := t.Underlying().(*types.Pointer); isPtr {
+					return true
+				}
+			}
+			e = ast.Unparen(x.X)
+		case *ast.IndexExpr:
+			if t := u.Info().TypeOf(x.X); t != nil {
+				switch t.Underlying().(type) {
+				case *types.Map, *types.Slice, *types.Pointer:
+					return true
+				}
+			}
+			e = ast.Unparen(x.X)
+		case *ast.StarExpr:
+			return true
+		default:
+			_ = first
+			return false
+		}
+		first = false
+	}
 }
